@@ -1041,7 +1041,20 @@ func runC12(w *World, r *Report) {
 				return
 			}
 			k++
-			r.Check(hasGuard(ret.Block(), guardOnField(fNonNil)), "C12.nil-form-needs-no-codec", fmt.Sprintf("internalUnmarshal: answer #%d to the null form", k), ret.Pos(), "behind the test of NonNilPointerNum", "null is answered with a nil outermost pointer before the inner-nil count is looked at: a non-nil **T (or ***T) that leads to a nil pointer comes back as a nil pointer at the outermost level, silently, in every position (a state field MaxCalls **int set to 'unlimited' reads 'default' after resume)")
+			noInnerNil := func(g guard) bool {
+				op, x, y, ok := asCmp(g.cond)
+				if !ok || !isLoadOfField(x, fNonNil) || !isConstN(y, 0) {
+					return false
+				}
+				switch op {
+				case token.GTR, token.NEQ:
+					return !g.pol
+				case token.EQL, token.LEQ:
+					return g.pol
+				}
+				return false
+			}
+			r.Check(hasGuard(ret.Block(), noInnerNil), "C12.nil-form-needs-no-codec", fmt.Sprintf("internalUnmarshal: answer #%d to the null form", k), ret.Pos(), "behind the test of NonNilPointerNum", "null is answered with a nil outermost pointer before the inner-nil count is looked at: a non-nil **T (or ***T) that leads to a nil pointer comes back as a nil pointer at the outermost level, silently, in every position (a state field MaxCalls **int set to 'unlimited' reads 'default' after resume)")
 		})
 	}
 	shareRule(w, r, "C12.decoded-channel-taken-whole", "what was decoded of a channel is what the run continues with: load copies every exported field of the decoded channel (the bytes are right, the restored value must be too)", 8, "C05", "C05.channel-state")
